@@ -60,6 +60,7 @@ INT_RANGE = {
     'negativeInteger': (None, -1),
 }
 STRING_FAMILY = ('string', 'normalizedString', 'token')
+DATE_TIME_TYPES = ('gYearMonth', 'gYear', 'gMonthDay', 'gDay', 'gMonth', 'date', 'dateTime', 'time', 'dateTimeStamp')
 NAME_FAMILY = ('Name', 'NCName')
 
 
@@ -106,7 +107,8 @@ POOL_10 = ['string', 'normalizedString', 'token', 'language', 'Name', 'NCName', 
            'QName', 'hexBinary', 'base64Binary']
 POOL_11 = POOL_10 + list(XSD11_ONLY)
 # more weight where the interesting derivations live
-_WEIGHTED = ['int', 'int', 'integer', 'decimal', 'decimal', 'string', 'string', 'token', 'double', 'boolean', 'date',
+_WEIGHTED = ['gYearMonth', 'gYearMonth', 'gYear', 'dateTime', 'time', 'gMonthDay', 'gDay', 'gMonth', 'date',
+             'int', 'int', 'integer', 'decimal', 'decimal', 'string', 'string', 'token', 'double', 'boolean', 'date',
              'short', 'unsignedByte', 'positiveInteger', 'long', 'NCName', 'float']
 
 # --------------------------------------------------------------------------
@@ -116,6 +118,22 @@ _INT_POINTS = [0, 1, -1, 2, 3, 5, 7, 10, 42, 100, 127, 128, -128, -129, 255, 256
                2 ** 31 - 1, 2 ** 31, -2 ** 31, 2 ** 32 - 1, 2 ** 63 - 1, -2 ** 63, 2 ** 64 - 1, 10 ** 20, -10 ** 20]
 _TZ = ['', '', 'Z', '+05:30', '-08:00']
 _DATES = ['2000-01-01', '2024-02-29', '1999-12-31', '0001-01-01', '1970-06-15']
+# years where the XSD version matters: negative years (no year zero in XSD 1.0, astronomical numbering in 1.1), more
+# than four digits, and the year 0000 itself (a valid lexical form in XSD 1.1 only). All forms are canonical.
+_YEARS_ANY = ['-0044', '12345', '-0001', '-12345', '10000', '-0400']
+_YEARS_11 = ['0000', '0000']
+_MONTH_DAYS = ['-01-01', '-03-15', '-12-31', '-02-28']
+_MONTHS = ['-03', '-12', '-01']
+
+
+def _draw_year(draw, xsd):
+    return draw(st.sampled_from(_YEARS_ANY + _YEARS_11 if xsd == '1.1' else _YEARS_ANY))
+
+
+def _draw_date(draw, xsd):
+    if draw(st.integers(0, 9)) < 6:
+        return draw(st.sampled_from(_DATES))
+    return _draw_year(draw, xsd) + draw(st.sampled_from(_MONTH_DAYS))
 _TIMES = ['00:00:00', '12:30:45', '23:59:59', '12:00:00.5', '01:02:03.125']
 _FIXED_VALUES = {
     'boolean': ['true', 'false', '1', '0'],
@@ -171,7 +189,7 @@ def _draw_int(draw, lo, hi) -> int:
 
 
 @st.composite
-def builtin_value(draw, name: str, rng=None, tns_prefix: bool = False):
+def builtin_value(draw, name: str, rng=None, tns_prefix: bool = False, xsd: str = '1.0'):
     """A valid lexical form (whitespace-normalized) of built-in type `name`; rng = (lo, hi) inclusive bounds."""
     if name in INT_RANGE:
         lo, hi = INT_RANGE[name]
@@ -207,13 +225,16 @@ def builtin_value(draw, name: str, rng=None, tns_prefix: bool = False):
     if name in STRING_FAMILY:
         return draw(st.sampled_from(_STRINGS))
     if name == 'date':
-        return draw(st.sampled_from(_DATES)) + draw(st.sampled_from(_TZ))
+        return _draw_date(draw, xsd) + draw(st.sampled_from(_TZ))
     if name == 'time':
         return draw(st.sampled_from(_TIMES)) + draw(st.sampled_from(_TZ))
     if name == 'dateTime':
-        return draw(st.sampled_from(_DATES)) + 'T' + draw(st.sampled_from(_TIMES)) + draw(st.sampled_from(_TZ))
+        return _draw_date(draw, xsd) + 'T' + draw(st.sampled_from(_TIMES)) + draw(st.sampled_from(_TZ))
     if name == 'dateTimeStamp':
-        return draw(st.sampled_from(_DATES)) + 'T' + draw(st.sampled_from(_TIMES)) + draw(st.sampled_from(_TZ[2:]))
+        return _draw_date(draw, xsd) + 'T' + draw(st.sampled_from(_TIMES)) + draw(st.sampled_from(_TZ[2:]))
+    if name in ('gYear', 'gYearMonth') and draw(st.integers(0, 9)) >= 5:
+        return _draw_year(draw, xsd) + (draw(st.sampled_from(_MONTHS)) if name == 'gYearMonth' else '') + \
+            draw(st.sampled_from(_TZ))
     if name in ('gYear', 'gYearMonth', 'gMonth', 'gMonthDay', 'gDay'):
         return draw(st.sampled_from(_FIXED_VALUES[name])) + draw(st.sampled_from(_TZ))
     if name == 'QName':
@@ -289,7 +310,7 @@ def resolve(spec, typeref, _names=None) -> dict:
             if b == 'NMTOKENS':
                 return {'variety': 'list', 'item': resolve(spec, 'xs:NMTOKEN', names), 'facet': ['len', 1, None],
                         'chain': ['xs:NMTOKENS', 'xs:anySimpleType'], 'builtin': 'NMTOKENS', 'user': False}
-            return {'variety': 'atomic', 'builtin': b, 'facet': None,
+            return {'variety': 'atomic', 'builtin': b, 'facet': None, 'xsd': spec['xsd'],
                     'chain': ['xs:' + n for n in builtin_chain(b)], 'user': False}
         r = dict(resolve(spec, names[typeref], names))
         r['chain'] = [typeref] + r['chain']
@@ -374,11 +395,11 @@ def simple_value(draw, res: dict, tns_prefix: bool = False, pad: bool = True):
     b, facet = res['builtin'], res['facet']
     ws = whitespace_of(b)
     if facet is None:
-        s = draw(builtin_value(b, None, tns_prefix))
+        s = draw(builtin_value(b, None, tns_prefix, res.get('xsd', '1.0')))
     elif facet[0] == 'enum':
         s = facet[1][draw(st.integers(0, len(facet[1]) - 1))]
     elif facet[0] == 'range':
-        s = draw(builtin_value(b, (facet[1], facet[2]), tns_prefix))
+        s = draw(builtin_value(b, (facet[1], facet[2]), tns_prefix, res.get('xsd', '1.0')))
     elif facet[0] == 'pattern':
         s = facet[2][draw(st.integers(0, len(facet[2]) - 1))]
     elif facet[0] == 'len':
@@ -446,7 +467,7 @@ def _facet_for(draw, spec, base_res):
         n = draw(st.integers(1, 4))
         vals = []
         for _ in range(n):
-            s = draw(builtin_value(b, None, False))
+            s = draw(builtin_value(b, None, False, spec['xsd']))
             if b == 'QName':
                 s = 'xs:int'
             if s == 'NaN':
@@ -480,7 +501,7 @@ def _atomic_refs(spec, names):
 def _builtin_ref(draw, xsd):
     if draw(st.integers(0, 2)) == 0:
         return 'xs:' + draw(st.sampled_from(POOL_11 if xsd == '1.1' else POOL_10))
-    return 'xs:' + draw(st.sampled_from(_WEIGHTED))
+    return 'xs:' + draw(st.sampled_from(_WEIGHTED + ['dateTimeStamp', 'dateTimeStamp'] if xsd == '1.1' else _WEIGHTED))
 
 
 @st.composite
@@ -653,6 +674,19 @@ def schema_spec(draw):
         f2 = draw(_facet_for(spec, resolve(spec, f'T{n}')))
         spec['types'].append({'name': f'T{n + 1}', 'def': ['restriction', f'T{n}', f2]})
         forced = f'T{n}'
+    elif fam in (2, 3):
+        # a declaration over the date/time built-ins (the datatype class depends on the XSD version)
+        pool = [t for t in DATE_TIME_TYPES if t != 'dateTimeStamp' or spec['xsd'] == '1.1']
+        b = 'xs:' + draw(st.sampled_from(pool))
+        k = draw(st.integers(0, 5))
+        if k < 3:
+            forced = b
+        elif k == 3:
+            forced = ['restriction', b, draw(_facet_for(spec, resolve(spec, b)))]
+        elif k == 4:
+            forced = ['list', b]
+        else:
+            forced = ['union', [b, 'xs:' + draw(st.sampled_from([t for t in pool if 'xs:' + t != b]))]]
     eo = draw(_eo(spec, 1))
     if forced is not None:
         k = eo[1][draw(st.integers(0, len(eo[1]) - 1))]
@@ -971,6 +1005,45 @@ def _literal(draw, cls):
     raise ValueError(cls)
 
 
+_ATTR_CONTEXT_SHAPES = [
+    '{base}/@{a}/self::*', '{base}/@*/self::*', '//@*/self::*', '//@{a}/self::*', '//@{a}/ancestor-or-self::*',
+    '//@*/ancestor-or-self::*', '{base}/({at} | {e})/self::*', '{base}/({e} | {at})/self::{e}', '{base}/@*[self::*]',
+    '{base}/@{a}[self::*]', '{base}/{e}[@{a}/self::*]', '{base}[@*/self::*]', '//*[@{a}/self::*]', '//@*/parent::*',
+    '//@{a}/parent::{e}', '//@*/..//*', '{base}/@{a}/..//*', '{base}/@{a}/descendant-or-self::*',
+    '//@*/descendant-or-self::*', '{base}/@{a}/following::*', '{base}/@*/ancestor::*', '//@{a}/self::{e}',
+    '{base}/@*/self::node()', '{base}/@{a}/descendant::*', '{base}/@*/preceding::*', '//@*/self::*/..',
+    '{base}/({at} | {e})/ancestor-or-self::*', '//{e}[@*[self::*]]', '{base}/@{a}/child::*',
+]
+
+
+@st.composite
+def _attr_context_path(draw, spec, q):
+    """paths whose '*' / name test runs on a non-attribute axis while the context item is an attribute node
+    (self::* never selects an attribute: the principal node kind of the self axis is element)"""
+    cur = spec['root']
+    base = '/' + q('root', True)
+    for _ in range(draw(st.integers(0, 2))):
+        t = decl_type(spec, cur)
+        res = resolve(spec, t)
+        if res['variety'] != 'eo' or not res['kids']:
+            break
+        cur = res['kids'][draw(st.integers(0, len(res['kids']) - 1))]
+        base += '/' + q(cur['name'])
+    res = resolve(spec, decl_type(spec, cur))
+    attrs = [a['name'] for a in res['attrs']] if res['variety'] in ('eo', 'sc') else []
+    kids = [d['name'] for d in res['kids']] if res['variety'] == 'eo' else []
+    a = draw(st.sampled_from(attrs)) if attrs and draw(st.integers(0, 3)) > 0 else draw(st.sampled_from(ATTR_NAMES))
+    e = q(draw(st.sampled_from(kids)) if kids and draw(st.integers(0, 3)) > 0 else draw(st.sampled_from(ELEM_NAMES)))
+    at = '@' + a if draw(st.booleans()) else '@*'
+    shape = draw(st.sampled_from(_ATTR_CONTEXT_SHAPES))
+    feats = {'attr-context', 'attr-step'}
+    if shape.startswith('//') or '//' in shape[1:]:
+        feats.add('descendant')
+    if 'parent::' in shape or '/..' in shape:
+        feats.add('parent')
+    return [shape.format(base=base, a=a, e=e, at=at), sorted(feats)]
+
+
 @st.composite
 def path_expr(draw, spec):
     """(path string, feature list). Names are prefixed according to the schema's namespace settings."""
@@ -1027,6 +1100,8 @@ def path_expr(draw, spec):
             return f'[. {op} {lit}]'
         return ''
 
+    if draw(st.integers(0, 4)) == 0:
+        return draw(_attr_context_path(spec, q))
     # structure-guided walk
     cur = spec['root']          # current declaration or None when unknown
     k0 = draw(st.integers(0, 9))
